@@ -17,6 +17,17 @@ var (
 	}
 )
 
+// stampAfter returns the timestamp of a local update to an entry this node last saw updated at last: the local clock,
+// or the instant after last when the local clock is behind the clock of the node that issued that update. A local
+// update is thus never older than the state it replaces.
+func stampAfter(last int64) int64 {
+	now := clock()
+	if now <= last {
+		return last + 1
+	}
+	return now
+}
+
 var (
 	ErrInvalidPayload         = errors.New("invalid payload")
 	ErrSessionMetadatasExists = errors.New("session metadatas already exists")
